@@ -73,9 +73,13 @@ def placed_amounts(op):
     for c, body in data.items():
         a = body.get('allocations')
         if isinstance(a, list):
+            # a provider named twice: the later entry is the request
+            last = {}
             for item in a:
-                for rc, n in item['resources'].items():
-                    out.append((c, item['resource_provider']['uuid'], rc, n))
+                last[item['resource_provider']['uuid']] = item['resources']
+            for rp, res in last.items():
+                for rc, n in res.items():
+                    out.append((c, rp, rc, n))
         elif isinstance(a, dict):
             for rp, d in a.items():
                 for rc, n in d['resources'].items():
@@ -88,7 +92,8 @@ class SeqRun(object):
 
     def __init__(self, world, seed, n_ops=40, gen_kwargs=None, knobs=None,
                  ops=None, follow_up_null=True, start='synced',
-                 stop_tags=None):
+                 stop_tags=None, two_workers=False):
+        self.two_workers = two_workers
         self.world = world
         self.seed = seed
         self.n_ops = n_ops
@@ -133,6 +138,16 @@ class SeqRun(object):
 
     def do(self, op):
         w = self.world
+        if self.two_workers and 'w' not in op:
+            op['w'] = 0 if self.fixed_ops is not None else (
+                1 if self.rng.random() < 0.5 else 0)
+        if self.two_workers and op.get('w'):
+            # served by the second API worker process (own module state and
+            # caches, same database)
+            self.stats['peer_requests'] = \
+                self.stats.get('peer_requests', 0) + 1
+            return w.peer_request(op['m'], op['p'], op.get('b'),
+                                  op.get('v'), op.get('h'))
         # clock: small steps, an hour forward, and the occasional jump
         # backwards (NTP step); no listed property may depend on it
         self.sim.advance(self.rng.choice([0, 1, 1, 5, 3600, -7200]))
@@ -519,7 +534,9 @@ class SeqRun(object):
                     self.null_follow_up()
                     if self.stop:
                         break
-                if self.rng.random() < 0.05:
+                # with two workers the read-backs are what exposes a view
+                # that one process keeps of what the other has since changed
+                if self.rng.random() < (0.3 if self.two_workers else 0.05):
                     self.cross_views()
             if not self.stop:
                 self.cross_views()
